@@ -25,5 +25,21 @@ theorem regulariser_positions :
     (Gen.solveMainParams.drop 17).take 5 = ["h", "lh", "argsh", "prox_uh", "argsprox"] ∧
     ∀ c ∈ Gen.solveMainCalls, (c.1.drop 17).take 5 = ["h", "lh", "argsh", "prox_uh", "argsprox"] := by decide +kernel
 
+/-- the counters are rebound from EVERY run's result, unconditionally: each of the three unpackings has twelve targets with
+    `nf, nx, nruns, exit_info` at positions 5–8 (the result of a restarted run goes to fresh names `…2` otherwise), and every
+    `return` of `solve_main` has twelve elements with the controller's (or, before a controller exists, the local) `nf` / `nx` at
+    positions 5 / 6 and `exit_info` at position 8 -/
+theorem counters_threaded :
+    (Gen.solveMainTargets.length = 3 ∧ ∀ t ∈ Gen.solveMainTargets, t.length = 12 ∧ (t.drop 5).take 4 = ["nf", "nx", "nruns", "exit_info"]) ∧
+    (Gen.solveMainReturns.length = 3 ∧ ∀ r ∈ Gen.solveMainReturns, r.length = 12 ∧
+      ((r.drop 5).take 2 = ["nf", "nx"] ∨ (r.drop 5).take 2 = ["control.nf", "control.nx"]) ∧ (r.drop 8).take 1 = ["exit_info"]) ∧
+    (∀ c ∈ Gen.solveMainCalls, (c.1.drop 10).take 3 = ["nruns", "nf", "nx"]) := by decide +kernel
+
+/-- the run counter handed back: the two returns that stand BEFORE the main loop add the run themselves (`nruns_so_far + 1`), the
+    return after the loop hands back `nruns_so_far` as the loop left it (one increment per `break`: `C10_src_nruns_once`) -/
+theorem nruns_returned :
+    Gen.solveMainReturns.map (fun r => (r.drop 7).take 1) = [["nruns_so_far + 1"], ["nruns_so_far + 1"], ["nruns_so_far"]] := by
+  decide +kernel
+
 end SolveMainCalls
 end Dfols
